@@ -55,6 +55,7 @@ type VarUse struct {
 	LocDefault bool // the position declares a default value
 	Nested     bool // the use sits inside a list or input object literal
 	OneOf      bool // the use is the single value of a oneOf input object
+	Untyped    bool // the use sits inside a custom-scalar literal: no declared type at that position (Loc is the variable's own type)
 }
 
 type TypedDoc struct {
@@ -142,7 +143,7 @@ func (g *docGen) variable(ty *ref.Type, locHasDefault bool, strict bool) *ref.Va
 func (g *docGen) valueOf(ty *ref.Type, depth int, locHasDefault bool) *ref.Value {
 	if g.chance("usevar", 4) {
 		val := g.variable(ty, locHasDefault, false)
-		g.out.Uses = append(g.out.Uses, VarUse{val, ty, g.unit, locHasDefault, false, false})
+		g.out.Uses = append(g.out.Uses, VarUse{val, ty, g.unit, locHasDefault, false, false, false})
 		return val
 	}
 	v := g.literal(ty, depth)
@@ -165,7 +166,7 @@ func (g *docGen) literal(ty *ref.Type, depth int) *ref.Value {
 		for i, n := 0, rapid.IntRange(0, 2).Draw(g.t, "nlist"); i < n; i++ {
 			if depth > 0 && g.chance("nestedvar", 5) {
 				val := g.variable(ty.Elem, false, false)
-				g.out.Uses = append(g.out.Uses, VarUse{val, ty.Elem, g.unit, false, true, false})
+				g.out.Uses = append(g.out.Uses, VarUse{val, ty.Elem, g.unit, false, true, false, false})
 				v.Items = append(v.Items, val)
 				continue
 			}
@@ -193,7 +194,7 @@ func (g *docGen) literal(ty *ref.Type, depth int) *ref.Value {
 			nn.NonNull = true
 			if g.chance("oneofvar", 3) {
 				val := g.variable(&nn, false, true)
-				g.out.Uses = append(g.out.Uses, VarUse{val, &nn, g.unit, false, true, true})
+				g.out.Uses = append(g.out.Uses, VarUse{val, &nn, g.unit, false, true, true, false})
 				v.Fields = append(v.Fields, &ref.ObjField{Name: f.Name, Value: val})
 				return v
 			}
@@ -209,7 +210,7 @@ func (g *docGen) literal(ty *ref.Type, depth int) *ref.Value {
 			}
 			if depth > 0 && g.chance("fieldvar", 5) {
 				val := g.variable(f.Type, f.Default != nil, false)
-				g.out.Uses = append(g.out.Uses, VarUse{val, f.Type, g.unit, f.Default != nil, true, false})
+				g.out.Uses = append(g.out.Uses, VarUse{val, f.Type, g.unit, f.Default != nil, true, false, false})
 				v.Fields = append(v.Fields, &ref.ObjField{Name: f.Name, Value: val})
 				continue
 			}
@@ -224,6 +225,10 @@ func (g *docGen) literal(ty *ref.Type, depth int) *ref.Value {
 		}
 		return v
 	}
+	if def != nil && def.Kind == "SCALAR" && !isBuiltinScalar(ty.Name) && depth > 0 && g.chance("customwithvars", 3) {
+		// custom scalar: a list or object literal with variables inside (no declared type in there)
+		return g.customScalarLiteral(2)
+	}
 	if def != nil && def.Kind == "SCALAR" && !isBuiltinScalar(ty.Name) {
 		// custom scalar: any literal; integers stay within what every consumer can convert
 		return rapid.SampledFrom([]*ref.Value{{Kind: "Int", Raw: "7"}, {Kind: "String", Raw: "2020-01-01"}, {Kind: "Boolean", Raw: "true"}, {Kind: "Float", Raw: "1.5"},
@@ -231,6 +236,42 @@ func (g *docGen) literal(ty *ref.Type, depth int) *ref.Value {
 			{Kind: "Object", Fields: []*ref.ObjField{{Name: "k", Value: &ref.Value{Kind: "Int", Raw: "1"}}, {Name: "l", Value: &ref.Value{Kind: "List"}}}}}).Draw(g.t, "custom")
 	}
 	return ConstOfType(g.t, g.lookup, &ref.Type{Name: ty.Name, NonNull: true}, depth, false)
+}
+
+// customScalarLiteral: a list or object literal for a custom scalar whose contents are literals,
+// nested lists / objects (distinct keys) and variables of simple types.
+func (g *docGen) customScalarLiteral(depth int) *ref.Value {
+	inner := func(d int) *ref.Value {
+		switch k := rapid.IntRange(0, 5).Draw(g.t, "csitem"); {
+		case k <= 1:
+			vt := &ref.Type{Name: rapid.SampledFrom([]string{"Int", "String", "Boolean", "ID"}).Draw(g.t, "csvartype")}
+			if g.chance("csvarlist", 4) {
+				vt = &ref.Type{Elem: vt}
+			}
+			val := g.variable(vt, false, true)
+			g.out.Uses = append(g.out.Uses, VarUse{Value: val, Loc: vt, Unit: g.unit, Nested: true, Untyped: true})
+			return val
+		case k == 2 && d > 0:
+			return g.customScalarLiteral(d - 1)
+		case k == 3:
+			return &ref.Value{Kind: "String", Raw: "x"}
+		case k == 4:
+			return &ref.Value{Kind: "Boolean", Raw: "true"}
+		}
+		return &ref.Value{Kind: "Int", Raw: "2"}
+	}
+	if rapid.Bool().Draw(g.t, "cslist") {
+		v := &ref.Value{Kind: "List"}
+		for i, n := 0, rapid.IntRange(1, 3).Draw(g.t, "csn"); i < n; i++ {
+			v.Items = append(v.Items, inner(depth))
+		}
+		return v
+	}
+	v := &ref.Value{Kind: "Object"}
+	for i, n := 0, rapid.IntRange(1, 3).Draw(g.t, "csn"); i < n; i++ {
+		v.Fields = append(v.Fields, &ref.ObjField{Name: []string{"ids", "k", "meta"}[i], Value: inner(depth)})
+	}
+	return v
 }
 
 func isBuiltinScalar(n string) bool {
